@@ -23,7 +23,11 @@ const vC02WidthsWide = "def=3;=4;1=9;2=2;2.*=4;1.1=2;1.7=3"
 func H_C02_readRequest_wide() { vC02(vC02WidthsWide) }
 
 // the two increments of the wide variant separately (each explored to completion)
-func H_C02_readRequest_2ctl() { vC02(vC02WidthsWide) } // two controls, control values re-decoded at width 2
+// two controls on a request whose operation node is narrow (2 children): what the second
+// control adds is independent of the operation's own children
+const vC02Widths2ctl = "def=2;=4;1=2;2=2;2.*=4"
+
+func H_C02_readRequest_2ctl() { vC02(vC02Widths2ctl) }
 func H_C02_readRequest_w3()   { vC02(vC02Widths) }     // one control, control values re-decoded at width 3
 
 // Whatever well-framed tree the wire reader returns, reading and decoding a
